@@ -246,7 +246,7 @@ def b_mono(ctx):
     seqs = [[100, -200, 100, -250, 200, 0, 200, -200], [300, 0, 240, 60, 180, 120], [150, -250, 250, -100, 200, -300], [200, 600, 1000, 60, 1500], [-143, 150, -132, -9, 288]]
     if ctx.tier == 'thorough':
         seqs += [[100, 300, -300, 200, -100, 250, -250], [250, -50, 150, -250, 50, -150]]
-    ctx.bound = f"{len(seqs)} load sequences; every single insertion of a non-reversal sample; values held for 2 / 3 / 5 samples; load scales 1, 1.1, 1.5, 2; R_z 25 -> 250; P_A 2.3e-1 -> 1e-3 -> 7.2e-5 -> 1e-5"
+    ctx.bound = f"{len(seqs)} load sequences; every single insertion of a non-reversal sample; values held for 2 / 3 / 5 samples; load scales 1, 1.1, 1.5, 2 (two seeded 80 / 40-reversal sequences: 1 .. 4 in 9 steps at c = 3); R_z 25 -> 250; P_A 2.3e-1 -> 1e-3 -> 7.2e-5 -> 1e-5"
     ctx.rule = "every comparison of two assessments is one non-trivial case"
     tasks = []
     for si, seq in enumerate(seqs):
@@ -331,6 +331,26 @@ def b_mono(ctx):
                     continue
                 if not (n10 <= n50 * (1 + 1e-9) and n50 <= n90 * (1 + 1e-9)):
                     ctx.fail(f'C10:quantile-order:{fam}', f'{fam}: N_10, N_50, N_90 = {n10}, {n50}, {n90} not ordered for {seq}', {'sequence': seq})
+    # long sequences under heavy loads: the damage sum reaches 1 after many passes, during the second pass, during the first pass - the lifetime has three regimes
+    # and must fall monotonically through all of them (added after seed C10-e compared with the hysteresis count of the wrong pass in the regime "during the second pass")
+    if ctx.shard == 0:
+        import numpy as np
+        for li, (nrev, sd) in enumerate(((80, 1), (40, 2))):
+            rng = np.random.default_rng(sd)
+            amps = rng.uniform(60, 200, nrev)
+            longseq = [float(a_ if k_ % 2 == 0 else -a_ * rng.uniform(0.3, 1.0)) for k_, a_ in enumerate(amps)]
+            prm2 = base_params(P_A=1e-5, P_L=50, c=3.0)
+            prev = None
+            for s_ in (1.0, 1.4, 1.8, 2.0, 2.1, 2.2, 2.5, 3.0, 4.0):
+                got = assess(prm2, pd.Series([v * s_ for v in longseq]))
+                ctx.case(True, key=('long', li, s_))
+                for fam, keys in (('P_RAM', KEYS_RAM), ('P_RAJ', KEYS_RAJ)):
+                    a = float(val(got, keys[0]))
+                    if not bool(val(got, keys[1])) and not a > 0:
+                        ctx.fail(f'C10:load-monotone:long-sequence:{fam}', f'{fam}: lifetime {a} cycles (finite life) for a {nrev}-reversal sequence scaled by {s_}', {'seed': sd, 'reversals': nrev, 'scale': s_})
+                    if prev is not None and a > float(val(prev, keys[0])) * (1 + 1e-9):
+                        ctx.fail(f'C10:load-monotone:long-sequence:{fam}', f'{fam}: scaling a {nrev}-reversal sequence up to {s_} increases the lifetime {float(val(prev, keys[0]))} -> {a}', {'seed': sd, 'reversals': nrev, 'scale': s_})
+                prev = got
     ctx.sample({'sequence': [100, -200, 100, -250, 200, 0, 200, -200], 'comparison': 'scale 1 -> 1.1 -> 1.5 -> 2'})
 
 
